@@ -129,9 +129,9 @@ static void scenario(int r_, int w_, int p_)
     VASSERTM(g_freed[W0] == has_w1 && g_freed[1] == (r >= 1) && g_freed[2] == (r >= 2) && g_freed[3] == (r >= 3), "exactly the superseded tasks were recycled");
     VASSERTM(CP(0).super.super.obj_reference_count == 2, "copy references balanced: owner + the one task still linked to the tile");
     VASSERTM(g_nb_tasks == 0 && g_sched_unknown == 0, "termination counter balanced; nothing unknown scheduled/freed");
-    if(r == 3 && has_w1 && p == 2) VWITNESS("writer, 3 readers, writer; first writer ran after 2 insertions");
+    if(r == RMAX && has_w1 && p == 2) VWITNESS("writer, RMAX readers, writer; first writer ran after 2 insertions");
     if(r == 2 && has_w1 && p == 0) VWITNESS("first writer ran before any successor was inserted");
-    if(r == 3 && has_w1 && p == 4) VWITNESS("first writer ran after the whole chain was inserted");
+    if(r == RMAX && has_w1 && p == RMAX + 1) VWITNESS("first writer ran after the whole chain was inserted");
     if(r == 0 && has_w1) VWITNESS("writer directly behind writer");
 }
 
